@@ -287,3 +287,35 @@ Proof.
   intros [|]; eexists; eexists; (split; [vm_compute; reflexivity|]);
     (split; [vm_compute; reflexivity|]); vm_compute; reflexivity.
 Qed.
+
+(** the additional hypotheses of the buffer-level theorems (RoundTripPrint.v) hold for the
+    example, and — TEST — the transliterated cJSON_Print / cJSON_PrintBuffered return exactly the
+    rendered text and its terminator, with and without realloc, for several prebuffer sizes *)
+Theorem roundtrip_nonvacuous_fields :
+  fields_ok ex_tree = true /\
+  forall fmt txt, ref_render fmt 0 ex_tree = Some txt -> zlen txt + 2 <= c_INT_MAX.
+Proof.
+  split; [vm_compute; reflexivity|].
+  intros [|] txt H; vm_compute in H; injection H as <-; vm_compute; intro C; discriminate C.
+Qed.
+
+Definition ref_print (junk : nat -> Z) (n : node) (fmt hr : bool) :=
+  print fmt_d fmt_g15 fmt_g17 sscanf_lg (fun _ => false) junk n fmt hr.
+Definition ref_print_buffered (junk : nat -> Z) (n : node) (pre : Z) (fmt hr : bool) :=
+  cJSON_PrintBuffered fmt_d fmt_g15 fmt_g17 sscanf_lg (fun _ => false) junk n pre fmt hr.
+Definition block_of (r : res print_result) : option bytes :=
+  match r with Ok r => prr_block r | _ => None end.
+Definition starts_with (txt : bytes) (o : option bytes) : bool :=
+  match o with Some b => bytes_eqb (firstn (length txt) b) txt | None => false end.
+
+Example test_print_example :
+  forall fmt hr, exists txt,
+    ref_render fmt 0 ex_tree = Some txt /\
+    block_of (ref_print (fun _ => 165) ex_tree fmt hr) = Some (txt ++ [0]) /\
+    block_of (ref_print (fun i => Z.of_nat i mod 256) (ref_reparsed ex_tree) fmt hr) = Some (txt ++ [0]) /\
+    forallb (fun pre => starts_with (txt ++ [0]) (block_of (ref_print_buffered (fun _ => 165) ex_tree pre fmt hr)))
+            [0; 1; 17; 255; 256; 257; 1000] = true.
+Proof.
+  intros [|] [|]; eexists; (split; [vm_compute; reflexivity|]); (split; [vm_compute; reflexivity|]);
+    split; vm_compute; reflexivity.
+Qed.
